@@ -1,7 +1,7 @@
 """Small AST query helpers shared by the rules."""
 import ast
 
-from .core import AnalysisError, unparse, enclosing_def
+from .core import AnalysisError, AnchorError, unparse, enclosing_def
 from .dataflow import chain, call_name, _walk_no_scopes
 
 
@@ -200,7 +200,7 @@ def parse_expr(text):
 def class_methods(program, spec):
     cls = program.get(spec)
     if not isinstance(cls, ast.ClassDef):
-        raise AnalysisError("anchor vanished: %s is not a class" % spec)
+        raise AnchorError("anchor vanished: %s is not a class" % spec)
     return [n for n in cls.body if isinstance(n, ast.FunctionDef)]
 
 
